@@ -488,6 +488,38 @@ fn main() {
                     Err(_) => out.push(json!({"status":"panic"})),
                 }
             }
+            "from_ints" => {
+                // statement / advice values built from raw integers through the public constructors:
+                // accepted or rejected, and the resulting elements (canonical integer form)
+                let ty = job["type"].as_str().unwrap().to_string();
+                let nums = |k: &str| -> Vec<u64> {
+                    job[k].as_array().map(|a| a.iter().map(|x| x.as_str().map(|s| s.parse::<u64>().unwrap()).unwrap_or_else(|| x.as_u64().unwrap())).collect()).unwrap_or_default()
+                };
+                let strs = |v: &[Felt]| -> Vec<String> { v.iter().map(|e| e.as_int().to_string()).collect() };
+                let r = panic::catch_unwind(panic::AssertUnwindSafe(|| -> Value {
+                    match ty.as_str() {
+                        "StackInputs" => match miden_core::StackInputs::try_from_values(nums("values")) {
+                            Ok(v) => json!({"status":"ok","values": strs(v.values())}),
+                            Err(e) => json!({"status":"err","error": format!("{e:?}")}),
+                        },
+                        "AdviceInputs" => match miden_processor::AdviceInputs::default().with_stack_values(nums("values")) {
+                            Ok(v) => json!({"status":"ok","values": strs(v.stack())}),
+                            Err(e) => json!({"status":"err","error": format!("{e:?}")}),
+                        },
+                        "StackOutputs" => match miden_core::StackOutputs::new(nums("stack"), nums("overflow_addrs")) {
+                            Ok(v) => json!({"status":"ok","values": strs(&v.stack().iter().map(|x| Felt::new(*x)).collect::<Vec<_>>()),
+                                            "raw_stack": v.stack().iter().map(|x| x.to_string()).collect::<Vec<_>>(),
+                                            "raw_addrs": v.overflow_addrs().iter().map(|x| x.to_string()).collect::<Vec<_>>()}),
+                            Err(e) => json!({"status":"err","error": format!("{e:?}")}),
+                        },
+                        t => panic!("unknown type {t}"),
+                    }
+                }));
+                match r {
+                    Ok(v) => out.push(v),
+                    Err(_) => out.push(json!({"status":"panic"})),
+                }
+            }
             "batch_ops" => {
                 // the real Span::new (batch_ops): number of batches, groups and op counts
                 let ops: Vec<Operation> = job["ops"].as_array().unwrap().iter().map(op_from).collect();
